@@ -120,26 +120,123 @@ func isExtractOf(v ssa.Value, call ssa.Value, idx int) bool {
 	return ok && e.Tuple == call && e.Index == idx
 }
 
-// sameVarLoad: both values are loads of the same captured variable / the same SSA value.
+// isRecvValue: v is the function's receiver (the parameter itself, or a load of the local it was spilled into).
+func isRecvValue(fn *ssa.Function, v ssa.Value) bool {
+	if fn.Signature.Recv() == nil || len(fn.Params) == 0 {
+		return false
+	}
+	v = ssax.Strip(v)
+	if v == ssa.Value(fn.Params[0]) {
+		return true
+	}
+	if u, ok := v.(*ssa.UnOp); ok && u.Op == token.MUL {
+		return isRecvSpill(fn, u.X)
+	}
+	return false
+}
+
+// isRecvSpill: addr is the local variable holding a copy of the (value) receiver, never stored to again.
+func isRecvSpill(fn *ssa.Function, addr ssa.Value) bool {
+	al, ok := addr.(*ssa.Alloc)
+	if !ok || al.Referrers() == nil {
+		return false
+	}
+	n := 0
+	for _, r := range *al.Referrers() {
+		if st, ok := r.(*ssa.Store); ok && st.Addr == al {
+			n++
+			if st.Val != ssa.Value(fn.Params[0]) {
+				return false
+			}
+		}
+	}
+	return n == 1
+}
+
+// keyDesc names where a cache key / counter index comes from, independently of the SSA value that carries it:
+// a captured variable of the closure, or a field of the method's receiver.
+func keyDesc(v ssa.Value) string {
+	v = ssax.Strip(v)
+	if cv, ok := v.(*ssa.Convert); ok {
+		if d := keyDesc(cv.X); d != "" {
+			return "conv:" + d
+		}
+		return ""
+	}
+	in, ok := v.(ssa.Instruction)
+	if !ok || in.Parent() == nil {
+		return ""
+	}
+	fn := in.Parent()
+	switch x := v.(type) {
+	case *ssa.UnOp:
+		if x.Op != token.MUL {
+			return ""
+		}
+		switch a := x.X.(type) {
+		case *ssa.FreeVar:
+			return "captured:" + a.Name()
+		case *ssa.FieldAddr:
+			if fn.Signature.Recv() != nil && (a.X == ssa.Value(fn.Params[0]) || isRecvSpill(fn, a.X)) {
+				// the field must not be written in this function
+				if a.X.Referrers() != nil {
+					for _, r := range *a.X.Referrers() {
+						if fa, ok := r.(*ssa.FieldAddr); ok && fa.Field == a.Field && fa.Referrers() != nil {
+							for _, rr := range *fa.Referrers() {
+								if st, ok := rr.(*ssa.Store); ok && st.Addr == fa {
+									return ""
+								}
+							}
+						}
+					}
+				}
+				return "recv." + fieldVar(a).Name()
+			}
+		}
+	case *ssa.Field:
+		if fn.Signature.Recv() != nil && x.X == ssa.Value(fn.Params[0]) {
+			return "recv." + x.X.Type().Underlying().(*types.Struct).Field(x.Field).Name()
+		}
+	}
+	return ""
+}
+
+// sameSource: both values denote the same immutable source: identical SSA values, loads of the same captured
+// variable, or loads of the same receiver field.
 func sameSource(a, b ssa.Value) bool {
 	a, b = ssax.Strip(a), ssax.Strip(b)
 	if a == b {
 		return true
 	}
-	la, ok1 := a.(*ssa.UnOp)
-	lb, ok2 := b.(*ssa.UnOp)
-	if ok1 && ok2 && la.Op == token.MUL && lb.Op == token.MUL && la.X == lb.X {
-		if _, isFV := la.X.(*ssa.FreeVar); isFV {
-			return true
+	da, db := keyDesc(a), keyDesc(b)
+	return da != "" && da == db
+}
+
+// boolHelper: v is a call to a library function with a bool result and a single return; yields the returned
+// expression and the mapping from the helper's parameters to the actual arguments.
+func (c *Ctx) boolHelper(v ssa.Value) (*ssa.Function, ssa.Value, map[ssa.Value]ssa.Value, bool) {
+	cl, ok := v.(*ssa.Call)
+	if !ok {
+		return nil, nil, nil, false
+	}
+	h := cl.Call.StaticCallee()
+	if h == nil || !c.P.InLib(h) || len(h.Blocks) == 0 || h.Signature.Results().Len() != 1 {
+		return nil, nil, nil, false
+	}
+	if bt, ok := h.Signature.Results().At(0).Type().Underlying().(*types.Basic); !ok || bt.Kind() != types.Bool {
+		return nil, nil, nil, false
+	}
+	rets := ssax.Returns(h)
+	if len(rets) != 1 {
+		return nil, nil, nil, false
+	}
+	m := map[ssa.Value]ssa.Value{}
+	for i, p := range h.Params {
+		if i < len(cl.Call.Args) {
+			m[p] = cl.Call.Args[i]
 		}
 	}
-	// Convert of the same source
-	ca, ok1 := a.(*ssa.Convert)
-	cb, ok2 := b.(*ssa.Convert)
-	if ok1 && ok2 {
-		return sameSource(ca.X, cb.X)
-	}
-	return false
+	return h, rets[0].Results[0], m, true
 }
 
 var resultFields = []string{"Node", "CurtailingParsers", "Error"}
